@@ -75,6 +75,21 @@ CLAIMED.update({
     ),
 })
 
+CLAIMED.update({
+    "C01": (
+        "regular-language inclusion on PyYAML implicit-resolver tables read from source (regex -> DFA, first-character dispatch); three-valued polarity analysis of conversion sites; table-vs-signature check (static)",
+        "Decides exactly (a proof of that clause) the agreement the property names: every string the customised loader resolves as non-string is quoted by the dumper; representer / json.dumps number spellings resolve back to the same tag; everything the loader resolves to float is convertible by PyYAML's float constructor. Also decides the serialize-polarity of every conversion in adapt_typehints/adapt_class_type and the print_config flag table. Not decided: value equality for all parsers and inputs, the load_basic fast path, skip_default logic.",
+        "Trusted: PyYAML writes a str plain only if its resolver resolves the text to str, and reads a plain scalar through the loader's resolver (facts of yaml/serializer.py, emitter.py); representer/constructor spellings re-checked against the installed source on every run; alphabet = ASCII + one class for all non-ASCII characters; `$` modelled as end of input.",
+        "DESIGN.md section 3 / C01",
+    ),
+    "C20": (
+        "dominance (validate before cast), table checks, sibling cross-check over every register_type call, regular-language inclusion serializer-output <= deserializer-input, class-local taint for SecretStr (static)",
+        "Decides order (validation dominates the cast, bool / non-integral float rejected first), operator and and/or tables, and for each registry entry: no lossy numeric serializer, paired custom functions, serializer language included in deserializer language (range, timedelta; exact on DFAs), declared deserializer exceptions covering the modelled raises; SecretStr's value never reaches __str__/__repr__. Not decided: acceptance <=> predicate and round trip for every value.",
+        "Trusted: CTOR_RAISES table of stdlib constructor exceptions; str(timedelta) format; str()/T(str) pairs of the stdlib are lossless. Known finding F13 (Decimal through float).",
+        "DESIGN.md section 3 / C20",
+    ),
+})
+
 NOT_APPLICABLE = {
     "C07": "relational equality of the behaviour of four declaration styles implemented in four modules; no clause is visible in the shape of any one code path, and the only structural candidate (prefixing consistency in _move_parser_actions) is a lint whose violation need not change behaviour (DESIGN.md section 3 / C07)",
     "C13": "soundness of the library's own static parameter resolver over all user programs; decided per program only against the interpreter (an execution oracle); the single wiring clause is too thin to count as deciding anything (DESIGN.md section 3 / C13)",
